@@ -17,7 +17,10 @@ CLAIMED = {
             "unauthorized signature sends exactly one message, path || hash (sign_hash_relays_exactly); a signature "
             "returned is the (r, s) of the DER signature in the device's answer to the LAST message sent, and that "
             "answer names the SUCCESS operation (sign_returns_device_signature, sign_hash_returns_device_signature: "
-            "Proofs/SignLast.lean, through all four steps); per "
+            "Proofs/SignLast.lean, through all four steps); and conversely, for the same decomposition of the trace, the "
+            "signature (r, s) is returned IF AND ONLY IF all three parts went out in full and the device's answer to the "
+            "last message names SUCCESS and carries the DER signature (r, s) (sign_succeeds_exactly_when: "
+            "Proofs/SignConverse.lean — a failed step leaves the later parts empty, and a framed proof is never empty); per "
             "transfer: prefix / completeness-on-success / chunk independence. The oracle Spec.C01.c01 recomputes "
             "the expected parts (path/input, BTC payload layout with unsigned tx and extra data, receipt, proof "
             "framing) from the request independently of the model's encoders and checks prefix/order/"
